@@ -61,8 +61,36 @@ def extra_run(man, tier, seed):
         if cur and l.startswith('    ') and l.strip():
             site, cls = KNOWN.get(cur, ('Mixture.' + cur, cur))
             failures.append({'site': site, 'case': l.strip()[:600], 'impl': '', 'expected': f'no `{cur}`', 'observed': cur, 'detail': cur, 'cls': cls})
-    return {'obligations': obligations, 'failures': failures, 'stats': {'evaluations': ncases, 'distinct_nontrivial': ncases},
+    # variance of Gaussian mixtures against the shifted (cancellation-free) form  Σ w_k ((mu_k - m)^2 + s_k^2),  m = Σ w_k mu_k:
+    # the code evaluates Σ w (s^2 + mu^2) - m^2, which is the same real number (theorem C11.variance_eq) but cancels for
+    # |mean| >> spread — "a one-component mixture is its component" then fails in binary64
+    import random as _random, math as _math
+    from checklib.core import enc as _enc, run_pair as _run_pair, tok_to_float as _t2f
+    rng = _random.Random(seed * 71 + 3)
+    vl, vw = [], []
+    for _ in range(30 if tier == 'quick' else 600):
+        k = rng.choice([1, 1, 2, 3])
+        w = [rng.random() + 0.05 for _ in range(k)]
+        tot = sum(w)
+        w = [x / tot for x in w]
+        base = rng.choice([0.0, 1.0, 1e3, 1e6, 1e9]) * rng.choice([-1, 1])
+        mus = [base + rng.uniform(-2, 2) for _ in range(k)]
+        sig = [_math.exp(rng.uniform(-1.5, 1.5)) for _ in range(k)]
+        m = _math.fsum(a * b for a, b in zip(w, mus))
+        want = _math.fsum(a * ((b - m) ** 2 + c * c) for a, b, c in zip(w, mus, sig))
+        flat = [v for pair in zip(mus, sig) for v in pair]
+        vl.append(f'mix.gauss.variance - {_enc(w)} L{k} ' + ' '.join(_enc(v) for v in flat))
+        vw.append((want, abs(base)))
+    vi, _ = _run_pair(vl, want_model=False)
+    for l, a, (want, base) in zip(vl, vi, vw):
+        toks = a.split()
+        got = _t2f(toks[1]) if len(toks) == 2 and toks[0] == 'S' else float('nan')
+        if not (abs(got - want) <= 1e-6 * want):
+            failures.append({'site': 'Mixture.variance', 'case': l[:3000], 'impl': a, 'expected': repr(want), 'observed': 'value',
+                             'detail': f'variance {got!r} vs shifted form {want!r} (|mean| ~ {base:g})', 'cls': 'large_mean_cancellation', 'base': base})
+    return {'obligations': obligations, 'failures': failures, 'stats': {'evaluations': ncases + len(vl), 'distinct_nontrivial': ncases + len(vl)},
             'samples': [l.strip()[:200] for l in out.split('\n')[1:4]]}
 
 
-INPUT_CLASSES = {'nan_weight': lambda f: f.get('cls') == 'nan_weight', 'variate_zero': lambda f: f.get('cls') == 'variate_zero'}
+INPUT_CLASSES = {'large_mean_cancellation': lambda f: f.get('cls') == 'large_mean_cancellation' and f.get('base', 0) >= 1e3,
+                 'nan_weight': lambda f: f.get('cls') == 'nan_weight', 'variate_zero': lambda f: f.get('cls') == 'variate_zero'}
